@@ -7,7 +7,7 @@ import dbgen
 import dbmodel as M
 import iotie
 
-PURE_KINDS = ["read", "getter", "reindex", "remove_none", "update_nochange", "update_nomatch", "len_iter", "handle_read", "update_all_same"]
+PURE_KINDS = ["read", "getter", "reindex", "remove_none", "update_nochange", "update_nomatch", "len_iter", "handle_read", "update_all_same", "unset_other_namespace"]
 WRITE_KINDS = ["insert", "remove_some", "update_some", "drop", "remove_all", "update_raises", "insert_multiple_bad", "remove_all_match", "update_all_match"]
 MUTATING_P_CALLS = {"write", "truncate"}
 
@@ -34,6 +34,12 @@ def make_op(g, kind):
                          ("update", ("noop", "tags"), {"unset_tags": ["abk"], "unset_as_str": True}, None),
                          ("update_all", {"unset_fields": ["ab"], "unset_as_str": True}),
                          ("update_all", {"unset_tags": ["ba"], "unset_as_str": True, "unset_fields": ["ba"]})])
+    if kind == "unset_other_namespace":
+        # unset a key that exists only in the OTHER namespace ("n" is a field key, "id" a tag key): nothing to remove, through the database and through a handle
+        return r.choice([("update_all", {"unset_tags": ["n"]}), ("update_all", {"unset_fields": ["id"]}),
+                         ("handle", r.choice(["m1", "m2", "_default"]), ("update_all", {"unset_tags": ["n", "a_b"]})),
+                         ("handle", r.choice(["m1", "m2", "_default"]), ("update", ("noop", "tags"), {"unset_fields": ["id"]})),
+                         ("handle", r.choice(["m1", "m2", "_default"]), ("update_all", {"unset_tags": ["n"], "unset_fields": ["id"]}))])
     if kind == "update_nomatch":
         return r.choice([("update", nomatch, {"fields": ("static", {"a": 5})}, None), ("handle", "m3", ("update_all", {"fields": ("static", {"a": 5})}))])
     if kind == "update_all_same":
@@ -122,6 +128,8 @@ def main(tier, seed):
             op = r.choice([("update_all", {"tags": ("static", {"zz9": "x"}), "unset_tags": ["zz9"]}),
                            ("update_all", {"fields": ("static", {"zz9": 1}), "unset_fields": ["zz9"]}),
                            ("update", ("noop", "tags"), {"tags": ("static", {"zz9": "x"}), "fields": ("static", {"zz8": 2}), "unset_tags": ["zz9"], "unset_fields": ["zz8", "zz7"]}, None)])
+        if kind == "unset_other_namespace":
+            hist = [("insert", pts, None, "multiple", "compact")] + [h for h in hist[1:] if h[0] not in ("insert", "update_all")]
         if mode == "a":
             auto = False          # with auto_index the constructor itself reads (and raises) in append-only mode
         other = i % 3 == 1
@@ -147,7 +155,7 @@ def main(tier, seed):
             # (flush/seek change nothing when nothing is buffered; write/truncate on the primary are state changes)
             if rec["before_bytes"] != rec["after_bytes"]:
                 why = "a read / no-op operation wrote to the primary file"
-        elif mode in ("r", "a") and kind in ("remove_none", "update_nochange", "update_nomatch", "update_all_same") and not raised:
+        elif mode in ("r", "a") and kind in ("remove_none", "update_nochange", "update_nomatch", "update_all_same", "unset_other_namespace") and not raised:
             why = f"a write operation (although it would change nothing) on a database opened with access mode {mode!r} did not raise"
         elif readonly and kind in WRITE_KINDS:
             if not raised:
@@ -288,6 +296,41 @@ def main(tier, seed):
                             pass
                 finally:
                     _tempfile.tempdir = old_tmp
+    # callables that edit the mapping they are handed IN PLACE and hand it back with nothing changed in the end (pop a key that is not there, set a key
+    # to the value it has, add and remove a scratch key): no change, so the file - compact rows - stays byte for byte what it was and 0 is returned
+    inplace_runs = 0
+    for what, fn in (("pop a missing key", lambda d: (d.pop("scratch", None), d)[1]), ("pop an existing key and hand back the rest (merging never drops a key)", lambda d: (d.pop(next(iter(d))), d)[1]), ("set a key to the value it has", lambda d: (d.update({k: d[k] for k in list(d)[:1]}), d)[1]),
+                     ("add and remove a scratch key", lambda d: (d.__setitem__("scratch9", None), d.pop("scratch9"), d)[2]), ("return a fresh equal dict", lambda d: dict(d))):
+        for slot in ("tags", "fields"):
+            for auto in (True, False):
+                d = ck.work / f"inplace_{inplace_runs}"
+                d.mkdir()
+                tdir = d / "tmp"
+                tdir.mkdir()
+                path = str(d / "db.csv")
+                old_tmp = _tempfile.tempdir
+                _tempfile.tempdir = str(tdir)
+                try:
+                    db = tf.TinyFlux(path, auto_index=auto)
+                    for i_ in range(4):
+                        db.insert(tf.Point(time=_dt(2020, 1, 1, tzinfo=_tz.utc) + _td(seconds=i_), measurement="m1", tags={"site": "a", "k": str(i_)}, fields={"a": float(i_), "b": 1.0}),
+                                  compact_key_prefixes=True)
+                    before = open(path, "rb").read()
+                    try:
+                        out = db.update(tf.TagQuery().site == "a", **{slot: fn})
+                    except Exception as e:  # noqa
+                        out = type(e).__name__
+                    inplace_runs += 1
+                    after = open(path, "rb").read()
+                    left = sorted(_os.listdir(tdir)), sorted(x for x in _os.listdir(d) if x not in ("db.csv", "tmp"))
+                    if (after != before or left != ([], []) or out != 0) and len(direct_bad) < 4:
+                        direct_bad.append({"kind": "failing-input", "operation_kind": f"update({slot}=<callable: {what}>) on compact rows", "auto_index": auto,
+                                           "why": "an update that changes nothing changed the bytes of the database file" if after != before
+                                                  else (f"an update that changes nothing returned {out!r}" if out != 0 else f"files left behind: {left}"),
+                                           "outcome": out, "bytes_before": len(before), "bytes_after": len(after)})
+                    db.close()
+                finally:
+                    _tempfile.tempdir = old_tmp
     # iterators that are started and NOT exhausted (it = iter(db); next(it) - islice, zip, a `for` left by break): whatever an iteration needs,
     # nothing is in the temp or database directory once the call that produced the value has returned, and the file is as it was
     partial_runs = 0
@@ -414,7 +457,7 @@ def main(tier, seed):
             "run-time proxies harness/ioproxy.py; byte comparison of the database file and listings of a private temp directory and the database directory",
             "Print Assumptions: " + json.dumps(b["assumptions"])],
         "theorems": b["theorems"], "forbidden_tokens_found": b["forbidden"],
-        "evaluations": n + fault_runs + closed_runs + interrupted_runs + found_runs, "fault_injections": fault_runs, "reads_on_a_closed_database": closed_runs, "reads_on_files_as_found": found_runs, "started_iterators_kept_alive": partial_runs, "operations_interrupted_by_a_non_Exception": interrupted_runs, "distinct_nontrivial": len(seen),
+        "evaluations": n + fault_runs + closed_runs + interrupted_runs + found_runs, "fault_injections": fault_runs, "reads_on_a_closed_database": closed_runs, "reads_on_files_as_found": found_runs, "started_iterators_kept_alive": partial_runs, "in_place_editing_callables_without_net_change": inplace_runs, "operations_interrupted_by_a_non_Exception": interrupted_runs, "distinct_nontrivial": len(seen),
         "rule": "sampled (history, operation) pairs on a CSV database reopened in access modes r+ / r / a / w+; operation kinds: reads, getters, "
                 "reindex, len/iteration, handle reads, removals and updates that match or change nothing, and (for the leftover rule and read-only modes) real "
                 "writes including ones that raise; reads / getters / reindex / a no-match removal on a database object after close() in every access mode; checked directly: bytes of the file before/after, listing of a private temp directory (every second case "
